@@ -690,6 +690,10 @@ def zoo(tier='quick'):
     p.features.add('mm')
     Z.append(p)
     # a variable whose NAME contains the word the Model uses to mark exogenous definitions
+    # a sector whose CODE starts with the marker word (every one of its variables does, then)
+    p = single('sim_sector_code_starts_with_exogenous')
+    p.rename = {'HH': 'EXOGENOUS_HH', 'BUS': 'EXOGENOUSBUS'}
+    Z.append(p)
     p = single('sim_variable_named_exogenous_level')
 
     def exo_named_post(c):
@@ -843,6 +847,20 @@ def ambiguous():
     # two capitalist sectors in one country next to one dividend-paying firm: who receives the dividends is ambiguous
     p = single('sim_two_capitalists', caps=True, firm='fm1')
     p.decl('CA.RENT', lambda c: sd.Capitalists(c['CA'], c.nm('RENT'), alpha_income=0.4, alpha_fin=0.3, consumption_good_name=c.nm('GOOD')), group='CA')
+    p.features.add('ambiguous')
+    Z.append(p)
+    # a market whose only stated supplier has a rule and no residual supplier is named: nobody is left to clear the market
+    p = Plan('market_rule_supplier_only')
+    country(p, 'CA')
+    p.decl('CA.GOV', lambda c: Sector(c['CA'], c.nm('GOV')), group='CA')
+    p.decl('CA.HH', lambda c: Sector(c['CA'], c.nm('HH')), group='CA')
+    p.decl('CA.LAB', lambda c: Market(c['CA'], c.nm('LAB')), group='CA', kind='market')
+
+    def rule_only_post(c):
+        c['CA.GOV'].AddVariable('DEM_' + c.nm('LAB'), 'labour bought', '20.')
+        c['CA.HH'].AddVariable('SUP_' + c.nm('LAB'), 'labour sold', '')
+        c['CA.LAB'].AddSupplier(c['CA.HH'], 'SUP_%s/2' % c.nm('LAB'))
+    p.post(rule_only_post)
     p.features.add('ambiguous')
     Z.append(p)
     return Z
